@@ -71,7 +71,13 @@ Definition op_family : list term :=
     T OAnd [T OLe [ii; ij]; T ONot [T OLe [ii; ij]]; T OLe [ii; ij]];
     T OEquals [T OPow [rr; TRealC 2 1]; rr];
     T OEquals [T (OArrayValue TInt) [TIntC 0]; aa];
-    T OEquals [T ODiv [ii; ij]; ii]
+    T OEquals [T ODiv [ii; ij]; ii];
+    T OEquals [T (OStr SFromInt) [T ODiv [TIntC 255; TIntC (-10)]]; ss];
+    T OLe [T ODiv [T OPlus [ii; TIntC 1]; TIntC 2]; T ODiv [TIntC 7; ij]];
+    T (OForall [("j", TInt); ("i", TInt); ("x", TBool)]) [T OOr [bx; T OLt [ii; ij]]];
+    T (OExists [("b", TBV 4); ("a b", TBool); ("i", TInt)]) [T OAnd [bq; T (OBVRel BUlt) [b4; c4]; T OLe [ii; ij]]];
+    T (OForall [("y", TBool); ("x", TBool)]) [T (OExists [("x", TBool); ("y", TBool)]) [T OIff [bx; byy]]];
+    T (OForall [("b", TBV 4); ("b", TBV 4)]) [T (OBVRel BUlt) [b4; c4]]
   ].
 
 (* ---- the Core / linear-arithmetic family: every term with at most two operator levels *)
@@ -104,8 +110,8 @@ Proof. apply forallb_forall. vm_compute. reflexivity. Qed.
 Theorem roundtrip_dag_ops : forall t, In t op_family -> roundtrip_ok print_dag t = true.
 Proof. apply forallb_forall. vm_compute. reflexivity. Qed.
 
-(* roundtrip_ok is the identity of the returned term (up to the order of quantified variables,
-   which pySMT keeps in a set) *)
+(* roundtrip_ok is the identity of the returned term (identity: quantified variables are kept in
+   textual order) *)
 Lemma roundtrip_ok_spec pr t :
   roundtrip_ok pr t = true -> exists t', read_back pr t = Ok (ITerm t') /\ term_qeqb t' t = true.
 Proof.
